@@ -896,6 +896,9 @@ func genC19(c *Ctx) {
 		}
 		res := c.Emit("threatreal " + tok)
 		c.Count("threatreal=" + strings.Fields(res + " x")[0])
+		if ms := legalMoves(p); len(ms) > 0 && c.R.Chance(1, 3) {
+			c.Count("threatstack=" + clip(c.Emit("threatstack "+tok+" "+encMove(ms[c.R.Intn(len(ms))])+" "+encMove(ms[c.R.Intn(len(ms))])), 3))
+		}
 		if c.R.Chance(1, 4) || strings.HasPrefix(res, "ok") && c.R.Chance(1, 2) {
 			c.Emit("sthreatreal " + tok)
 		}
